@@ -22,7 +22,17 @@ def eval_program(arg) -> dict:
     seed, stream, scratch, tier = arg
     common.import_dznpy()
     want_mc = stream % 4 == 3
-    prog, case, _rng = progrun.make_program(PROP, seed, stream, scratch, want_mc)
+    need_two = stream % 3 == 2
+    prog, case, _rng = progrun.make_program(
+        PROP, seed, stream, scratch, want_mc, mc_shape=stream // 4,
+        accept=(lambda info: len(info['requires']) >= 2) if need_two else None)
+    if need_two:
+        # one semantics by explicit names, the other by 'remaining': the warm-up build spells the
+        # same assignment with two explicit sets from shared PortSelect objects
+        req = sorted(prog.info['requires'])
+        half = req[:max(1, len(req) // 2)]
+        prog.enc['requires'] = {'sts': 'REMAINING', 'mts': half} if stream % 2 else \
+            {'sts': half, 'mts': 'REMAINING'}
     # cover every semantics/direction combination in every run, whatever the random draw
     if stream % 3 == 0:
         prog.enc['requires'] = {'sts': 'NONE', 'mts': 'ALL'}
